@@ -340,10 +340,28 @@ func ruleHeapRestore(c *Ctx, r *R) {
 				continue // the sift's own swaps
 			}
 			k++
+			condWhy := ""
 			has := func(name string) bool {
 				for _, f := range follows {
 					if f.name == name && f.idx == p.idx && deepBefore(p.d, f.d) && !throughAny(f.d, "percolateUp", "percolateDown") {
-						return true
+						// the sift may be conditional only on the slot still existing (idx < len(h.a))
+						okConds := true
+						for _, cond := range extraConditions(p, heapFollow{d: f.d, name: f.name, idx: f.idx}) {
+							parts := strings.SplitN(cond, " ", 3)
+							okG := false
+							if len(parts) == 3 {
+								x, op, y := unparen(parts[0]), parts[1], unparen(parts[2])
+								isLen := func(s string) bool { return strings.HasPrefix(s, "len(") && strings.HasSuffix(s, ".a)") }
+								okG = (isLen(x) && y == unparen(p.idx) && op == ">") || (x == unparen(p.idx) && isLen(y) && op == "<")
+							}
+							if !okG {
+								okConds = false
+								condWhy = name + "(" + p.idx + ") is skipped under " + cond + ", which is stronger than 'the slot still exists'"
+							}
+						}
+						if okConds {
+							return true
+						}
 					}
 				}
 				return false
@@ -357,6 +375,9 @@ func ruleHeapRestore(c *Ctx, r *R) {
 			}
 			if !down {
 				why += " no percolateDown(" + p.idx + ") follows: the element can be larger than its children"
+			}
+			if condWhy != "" {
+				why += " (" + condWhy + ": e.g. a node with only a left child is treated as a leaf)"
 			}
 			r.ok(up && down, key, posOf(p.d.in), why)
 		}
